@@ -332,6 +332,7 @@ static int ex_region(char *loc, int *beg, int *end)
 		return 0;
 	}
 	if (!*loc) {
+		xrow = MAX(0, MIN(xrow, lbuf_len(xb)));
 		*beg = xrow;
 		*end = xrow == lbuf_len(xb) ? xrow : xrow + 1;
 		return 0;
